@@ -379,17 +379,19 @@ func (x *Exec) builtin(st *State, fr *Frame, b *ssa.Builtin, args []Value, in *s
 	case "copy":
 		dst := args[0].(SliceV)
 		var srcLen *Term
-		var srcAt func(k *Term) *Term
+		var srcAt func(k *Term) Value
 		switch src := args[1].(type) {
 		case SliceV:
 			srcLen = src.Len
 			if src.Obj != nil {
-				sarr := x.getPath(x.heapGet(st, src.Obj), src.Base).(ArrayT).T
-				srcAt = func(k *Term) *Term { return Select(sarr, bin("bvadd", src.Off, k)) }
+				sarr := x.getPath(x.heapGet(st, src.Obj), src.Base)
+				srcAt = func(k *Term) Value {
+					return x.getPath(sarr, []PathElem{{Field: -1, Idx: bin("bvadd", src.Off, k)}})
+				}
 			}
 		case StrV:
 			srcLen = x.strLen(src)
-			srcAt = func(k *Term) *Term { return x.strByte(src, k) }
+			srcAt = func(k *Term) Value { return Scalar{x.strByte(src, k)} }
 		default:
 			fail("copy from %T", args[1])
 		}
@@ -398,29 +400,37 @@ func (x *Exec) builtin(st *State, fr *Frame, b *ssa.Builtin, args []Value, in *s
 			return ret(Scalar{n})
 		}
 		darrV := x.getPath(x.heapGet(st, dst.Obj), dst.Base)
-		darr, ok := darrV.(ArrayT)
-		if !ok {
-			fail("copy into %T", darrV)
-		}
-		var nt *Term
-		if n.IsConst() && n.Val <= 64 {
-			nt = darr.T
-			// read all sources first (memmove semantics)
-			var vs []*Term
-			for k := uint64(0); k < n.Val; k++ {
+		p := Ptr{Obj: dst.Obj, Path: dst.Base}
+		if srcLen.IsConst() && srcLen.Val <= 64 {
+			// element-wise: position k is written iff k < len(dst) (memmove semantics: all sources read first)
+			var vs []Value
+			for k := uint64(0); k < srcLen.Val; k++ {
 				vs = append(vs, srcAt(Const(64, k)))
 			}
-			for k := uint64(0); k < n.Val; k++ {
-				nt = Store(nt, bin("bvadd", dst.Off, Const(64, k)), vs[k])
+			cur := darrV
+			for k := uint64(0); k < srcLen.Val; k++ {
+				fits := cmp("bvult", Const(64, k), dst.Len)
+				if fits.IsFalse() {
+					break
+				}
+				pe := []PathElem{{Field: -1, Idx: bin("bvadd", dst.Off, Const(64, k))}}
+				nv := vs[k]
+				if !fits.IsTrue() {
+					nv = x.mergeV(fits, vs[k], x.getPath(cur, pe))
+				}
+				cur = x.setPath(cur, pe, nv)
 			}
-		} else {
-			j := Bound(fmt.Sprintf("j_b%d", x.nextFresh()), BV(64))
-			rel := bin("bvsub", j, dst.Off)
-			inside := And(cmp("bvule", dst.Off, j), cmp("bvult", rel, n))
-			nt = Lambda(j, Ite(inside, srcAt(rel), Select(darr.T, j)))
+			x.store(st, p, cur)
+			return ret(Scalar{n})
 		}
-		var p Ptr
-		p = Ptr{Obj: dst.Obj, Path: dst.Base}
+		darr, ok := darrV.(ArrayT)
+		if !ok {
+			fail("copy of symbolic length into %T", darrV)
+		}
+		j := Bound(fmt.Sprintf("j_b%d", x.nextFresh()), BV(64))
+		rel := bin("bvsub", j, dst.Off)
+		inside := And(cmp("bvule", dst.Off, j), cmp("bvult", rel, n))
+		nt := Lambda(j, Ite(inside, x.leafTerm(srcAt(rel)), Select(darr.T, j)))
 		x.store(st, p, ArrayT{T: nt, Len: darr.Len, Elem: darr.Elem})
 		return ret(Scalar{n})
 	case "append":
